@@ -41,7 +41,7 @@ pub mod std {
     pub use ::std::*;
     pub mod thread {
         pub use crate::thread::{
-            available_parallelism, current, park, sleep, yield_now, Thread,
+            available_parallelism, current, park, park_timeout, sleep, yield_now, Thread,
         };
         pub use ::std::thread::*;
     }
